@@ -52,11 +52,21 @@ Decode(j) ==
 
 \* ---- pretty form: Rust's Debug ("{:?}") of values; strings only when they need no escaping
 RECURSIVE DebugVal(_), DebugSeq(_, _), DebugOk(_)
+\* Rust's `{:?}` of a string, for the characters of the ESCAPES table (file ESC: one [ch, esc] pair per character the pools use
+\* outside the plain set - quote, backslash, line break, tab, carriage return, NUL, another control character, apostrophe,
+\* printable non-ASCII letters - with the escape the language reference of Rust prescribes); other characters: not rendered
+Escapes == JsonDeserialize(IOEnv.ESC)
+EscOf(ch) == LET S == {i \in 1..Len(Escapes) : Escapes[i][1] = ch} IN IF S = {} THEN ch ELSE Escapes[CHOOSE i \in S : TRUE][2]
+Known(ch) == ch \in PlainChars \/ \E i \in 1..Len(Escapes) : Escapes[i][1] = ch
+IsDebuggable(s) == \A i \in 1..Len(s) : Known(CharAt(s, i))
+RECURSIVE DebugStrFrom(_, _)
+DebugStrFrom(s, i) == IF i > Len(s) THEN "" ELSE EscOf(CharAt(s, i)) \o DebugStrFrom(s, i + 1)
+
 DebugVal(v) ==
   CASE v.t = "null" -> "#null"
     [] v.t = "bool" -> IF v.b THEN "#true" ELSE "#false"
     [] v.t = "int"  -> DecStr(v.hi, v.lo)
-    [] v.t = "str"  -> "\"" \o v.s \o "\""
+    [] v.t = "str"  -> "\"" \o DebugStrFrom(v.s, 1) \o "\""
     [] v.t = "list" -> "[" \o DebugSeq(v.l, 1) \o "]"
     [] v.t = "set"  -> "{" \o DebugSeq(SortSet(v.e), 1) \o "}"
     [] v.t = "syn"  -> "[syntax node " \o Tr[v.n].kind \o " (" \o NatStr(Tr[v.n].sr + 1) \o ", " \o NatStr(Tr[v.n].sc + 1) \o ")]"
@@ -64,7 +74,7 @@ DebugVal(v) ==
 DebugSeq(l, i) ==
   IF i > Len(l) THEN "" ELSE IF i = Len(l) THEN DebugVal(l[i]) ELSE DebugVal(l[i]) \o ", " \o DebugSeq(l, i + 1)
 DebugOk(v) ==
-  CASE v.t = "str" -> IsPlainString(v.s)
+  CASE v.t = "str" -> IsDebuggable(v.s)
     [] v.t = "list" -> \A i \in 1..Len(v.l) : DebugOk(v.l[i])
     [] v.t = "set" -> SetSortable(v.e) /\ \A x \in v.e : DebugOk(x)
     [] OTHER -> TRUE
